@@ -174,7 +174,7 @@ def gen_cases(draw, n=20):
 
 CLAUSES = [
     Clause('hand-built-graphs', check_case, kind='random', strategy=lambda: ag_cases(20),
-           budget={'quick': 1500, 'thorough': 20000}),
+           budget={'quick': 6000, 'thorough': 50000}),
     Clause('generated-graphs', check_case, kind='random', strategy=lambda: gen_cases(20),
-           budget={'quick': 700, 'thorough': 10000}),
+           budget={'quick': 3000, 'thorough': 25000}),
 ]
